@@ -2,7 +2,7 @@
    process) together with the projected observations; `mismatches` lists the ids on which the Impl model disagrees. *)
 From Coq Require Import List NArith Bool Arith.
 From Gluon Require Export Base.DecBytes Base.ListX Model.Rfc822Split Model.Rfc822Header Model.Rfc822Sections
-  Model.LiteralFrame Model.PList Model.StructWriter.
+  Model.LiteralFrame Model.PList Model.StructWriter Gen.FactsStructure.
 Import ListNotations.
 
 Inductive case :=
@@ -48,7 +48,9 @@ Definition opt_keys_eqb (a b : option (list bytes)) : bool :=
 Definition case_ok (c : case) : bool :=
   match c with
   | CStruct _ t body structure envelope =>
-    bytes_eqb (write_body esc_go t) body && bytes_eqb (write_bodystructure esc_go t) structure
+    (* the decision rule of structure() is the one T1 found in the source *)
+    bytes_eqb (write_body esc_go structure_msg_single t) body
+    && bytes_eqb (write_bodystructure esc_go structure_msg_single t) structure
     && bytes_eqb (write_envelope esc_go (node_env t)) envelope
   | CWf _ text => wf_plist text
   | CParse _ lit ct obs =>
